@@ -149,10 +149,18 @@ def r_nocomm(c):
             "a part's own output could be replaced by a placeholder for itself")
 
 
+def _ancestors(n):
+    p = getattr(n, "_parent", None)
+    while p is not None:
+        yield p
+        p = getattr(p, "_parent", None)
+
+
 def r_tags(c):
     m = c.model
     fd = m.func(FUNCS[1])
     where = m.loc(m.module_of(fd), fd)
+    fd = m.inlined(fd)      # numbering / renumbering helpers are seen through
     src = ast.unparse(fd)
     # both ends are renumbered through the same mapping
     maps = set()
@@ -178,12 +186,13 @@ def r_tags(c):
         f"receives and sends are not both renumbered as map[own symbolic tag] through "
         f"one mapping ({sorted(maps)}): the two ends of a message get different integers")
     # first-seen numbering with a strictly increasing counter
+    # (inside whatever loop walks the gathered tags; that the walk is ordered is C17's)
     fs = find(fd, """
-for $t in flatten($all):
-    if $t not in $map:
-        $map[$t] = $next
-        $next += 1
+if $t not in $map:
+    $map[$t] = $next
+    $next += 1
 """)
+    fs = [e_ for e_ in fs if any(isinstance(q, ast.For) for q in _ancestors(e_["@node"]))]
     c.check(len(fs) == 1, "R09-TAGS", "distributed.tags.number_distributed_tags",
             "first-seen-strictly-increasing", where,
             "a new symbolic tag is not assigned the current counter followed by an "
